@@ -129,4 +129,13 @@ TEXT = {
         "design_ref": "§8 C15", "note": "sampling of state-change sequences; the unsynchronised group status that two simultaneous callbacks can race on is outside this property's quantifier and not judged",
         "technique": _SIM + "scripted caches drive socket state sequences; statement oracles on status reports",
     },
+    "C06": {
+        "text": "Schedule exploration of full reloads: reader tasks are released at every byte delivery of a reload and run batches of "
+                "rtr_mgr_validate / rtr_mgr_get_spki under basic-block-granularity preemption inside copy_except_socket, the per-PDU application to the "
+                "shadow tables, the swaps, notify_diff and shadow destruction; each answer must be explained by complete-OLD or complete-NEW (plus the "
+                "other cache's records), never new-then-old per reader and table, NEW after success / OLD after failure. The same plans run in the "
+                "ThreadSanitizer build where the scheduler is invisible to TSan.",
+        "design_ref": "§8 C06", "note": "sampling of schedules; cross-table order (prefix table swapped before key table) is not demanded",
+        "technique": _SIM + "seeded schedule exploration with guard-level preemption, old-or-new oracle + ThreadSanitizer",
+    },
 }
